@@ -320,6 +320,35 @@ pub enum Recipe {
     Sweep { base: usize, back: usize, width: usize, val: usize },
     Owned { plain_base: usize, wrap_base: usize, seed: u64, model: bool },
     RandomTail { base: usize, seed: u64 },
+    /// the `field`-th 8-byte field (block id or length) of a layer-less body set to BLOCK_FIELD_VALUES[val], under the layers of `wrap_base`
+    BlockField { plain_base: usize, wrap_base: usize, field: usize, val: usize },
+}
+
+/// values for the id / length fields of blocks: small, around 2^20 (a threshold a skip-by-seek optimisation
+/// would plausibly use), around the 32/63/64-bit edges and values that wrap when added to a position
+pub const BLOCK_FIELD_VALUES: [u64; 12] = [0, 1, (1 << 20) - 1, 1 << 20, (1 << 20) + 1, 1 << 31, (1 << 32) + 5, (1 << 63) - 1, 1 << 63, u64::MAX - 16, u64::MAX - 1, u64::MAX];
+
+/// offsets (inside a layer-less body) of the id and length fields of its blocks, up to the end-of-data marker
+pub fn block_fields(body: &[u8]) -> Vec<usize> {
+    let mut v = Vec::new();
+    let mut p = 0usize;
+    while let Some(&t) = body.get(p) {
+        if t == 0xFE {
+            break;
+        }
+        v.push(p + 1); // id
+        p += 9;
+        match t {
+            0 | 1 => {
+                let Some(l) = body.get(p..p + 8) else { break };
+                v.push(p); // name / content length
+                p += 8 + u64::from_le_bytes(l.try_into().unwrap()) as usize;
+            }
+            0xFF => p += 32,
+            _ => break,
+        }
+    }
+    v
 }
 
 pub struct Corpus {
@@ -604,6 +633,20 @@ impl Corpus {
         for _ in 0..n_owned {
             recipes.push(Recipe::Owned { plain_base: *rng.pick(&of(0)), wrap_base: rng.below(nb as u64) as usize, seed: rng.next(), model: false });
         }
+        // (4b) structure-aware: EVERY id / length field of the blocks of a few layer-less bodies x edge values,
+        // under every layer combination (the block stream is what linear extraction and repair walk)
+        let plain_bases: Vec<usize> = of(0).into_iter().take(if thorough { 6 } else { 2 }).collect();
+        for pb in &plain_bases {
+            let nfields = block_fields(&bases[*pb].built.bytes[bases[*pb].built.header_len..]).len();
+            for wl in [0u8, L_ENC, L_COMP, L_ENC | L_COMP] {
+                let Some(wb) = of(wl).first().copied() else { continue };
+                for field in 0..nfields {
+                    for val in 0..BLOCK_FIELD_VALUES.len() {
+                        recipes.push(Recipe::BlockField { plain_base: *pb, wrap_base: wb, field, val });
+                    }
+                }
+            }
+        }
         // (5) random tails after a valid header
         let n_rand = if thorough { 8000 } else { 2000 };
         for _ in 0..n_rand {
@@ -689,6 +732,25 @@ impl Corpus {
                 let mut bytes = w.built.bytes[..w.built.header_len].to_vec();
                 bytes.extend_from_slice(&inner);
                 let mut inp = self.from_base(*wrap_base, format!("c08-{idx}-owned"), format!("owned layers={} {}", w.plan.layers, tags.join("+")), bytes, *model);
+                inp.names = p.plan.names.clone();
+                inp
+            }
+            Recipe::BlockField { plain_base, wrap_base, field, val } => {
+                let p = &self.bases[*plain_base];
+                let w = &self.bases[*wrap_base];
+                let mut body = p.built.bytes[p.built.header_len..].to_vec();
+                let at = block_fields(&body)[*field];
+                body[at..at + 8].copy_from_slice(&BLOCK_FIELD_VALUES[*val].to_le_bytes());
+                let mut inner = body;
+                if w.plan.layers & L_COMP != 0 {
+                    inner = comp_wrap(&inner);
+                }
+                if w.plan.layers & L_ENC != 0 {
+                    inner = gcm_wrap(&w.built.key, &w.built.nonce, &inner);
+                }
+                let mut bytes = w.built.bytes[..w.built.header_len].to_vec();
+                bytes.extend_from_slice(&inner);
+                let mut inp = self.from_base(*wrap_base, format!("c08-{idx}-blockfield"), format!("block-field layers={} value#{val}", w.plan.layers), bytes, false);
                 inp.names = p.plan.names.clone();
                 inp
             }
